@@ -7,52 +7,53 @@ Open Scope N_scope.
 Lemma lower_lcs s : lower s = lcs s.
 Proof. reflexivity. Qed.
 
-Definition asciib (s : bytes) : bool := forallb (fun b => b <? 128) s.
-
-Lemma asciib_firstn n s : asciib s = true -> asciib (firstn n s) = true.
+(* ---- asciiEqualFold is ASCII case-insensitive equality (on byte strings: every element < 256) ------------------ *)
+Definition byte_range : list N := map N.of_nat (seq 0 256).
+Lemma in_byte_range c : c < 256 -> In c byte_range.
 Proof.
-  revert n; induction s as [|x s IH]; intros [|n] H; cbn in *; try reflexivity.
-  apply andb_true_iff in H as [H1 H2]. now rewrite H1, IH.
-Qed.
-Lemma asciib_skipn n s : asciib s = true -> asciib (skipn n s) = true.
-Proof.
-  revert n; induction s as [|x s IH]; intros [|n] H; cbn in *; try reflexivity; try assumption.
-  apply andb_true_iff in H as [H1 H2]. now apply IH.
+  intros Hc. unfold byte_range. apply in_map_iff. exists (N.to_nat c). split; [apply N2Nat.id|].
+  apply in_seq. lia.
 Qed.
 
-Lemma asciib_hostname hp : asciib hp = true -> asciib (hostnameFromHostPortBytes hp) = true.
+Lemma toLower_is_lower c : c < 256 -> tbl toLowerTable c = lower_ascii c.
 Proof.
-  intros H. unfold hostnameFromHostPortBytes.
-  assert (Hs : asciib (fst (splitHostPortBytes hp)) = true).
-  { unfold splitHostPortBytes. destruct hp as [|c0 r]; [reflexivity|].
+  intros Hc. assert (Hall : forallb (fun c => tbl toLowerTable c =? lower_ascii c) byte_range = true) by (vm_compute; reflexivity).
+  rewrite forallb_forall in Hall. apply N.eqb_eq, Hall, in_byte_range, Hc.
+Qed.
+
+Lemma asciiEqualFold_iff s : forall t, wf_bytes s -> wf_bytes t -> (asciiEqualFold s t = true <-> lower s = lower t).
+Proof.
+  induction s as [|a s IH]; intros [|b t] Hs Ht; cbn [asciiEqualFold lower map]; split; try discriminate; try reflexivity.
+  - inversion Hs as [|? ? Ha Hs']; inversion Ht as [|? ? Hb Ht']; subst.
+    rewrite !toLower_is_lower by assumption. intros Hx. apply andb_true_iff in Hx as [H1 H2].
+    apply N.eqb_eq in H1. f_equal; [exact H1|]. now apply IH.
+  - inversion Hs as [|? ? Ha Hs']; inversion Ht as [|? ? Hb Ht']; subst.
+    rewrite !toLower_is_lower by assumption. intros Hx. injection Hx as H1 H2.
+    rewrite H1, N.eqb_refl. cbn [andb]. now apply IH.
+Qed.
+
+Lemma wf_firstn (s : bytes) : forall n, wf_bytes s -> wf_bytes (firstn n s).
+Proof.
+  unfold wf_bytes. induction s as [|x s IH]; intros [|n] Hs; cbn [firstn]; try constructor.
+  - now inversion Hs.
+  - apply IH. now inversion Hs.
+Qed.
+Lemma wf_skipn (s : bytes) : forall n, wf_bytes s -> wf_bytes (skipn n s).
+Proof.
+  unfold wf_bytes. induction s as [|x s IH]; intros [|n] Hs; cbn [skipn]; try assumption.
+  apply IH. now inversion Hs.
+Qed.
+
+Lemma wf_hostname hp : wf_bytes hp -> wf_bytes (hostnameFromHostPortBytes hp).
+Proof.
+  intros Hw. unfold hostnameFromHostPortBytes.
+  assert (Hs : wf_bytes (fst (splitHostPortBytes hp))).
+  { unfold splitHostPortBytes. destruct hp as [|c0 r]; [assumption|].
     destruct (c0 =? LBR).
-    - match goal with |- context [if ?c then _ else _] => destruct c end; cbn [fst]; [apply asciib_firstn|]; assumption.
-    - match goal with |- context [if ?c then _ else _] => destruct c end; cbn [fst]; [|apply asciib_firstn]; assumption. }
+    - match goal with |- context [if ?c then _ else _] => destruct c end; cbn [fst]; [apply wf_firstn|]; assumption.
+    - match goal with |- context [if ?c then _ else _] => destruct c end; cbn [fst]; [|apply wf_firstn]; assumption. }
   match goal with |- context [if ?c then _ else _] => destruct c end; [|assumption].
-  unfold slice_to, slice_from. now apply asciib_firstn, asciib_skipn.
-Qed.
-
-(* ---- bytes.EqualFold on ASCII strings is ASCII case-insensitive equality ------------------------------------ *)
-Lemma rune_fold_eq_ascii a b : a < 128 -> b < 128 -> rune_fold_eq a b = true -> lower_ascii a = lower_ascii b.
-Proof.
-  intros Ha Hb. unfold rune_fold_eq, lower_ascii, RuneSelf.
-  destruct (N.eqb_spec a b) as [->|Hne]; [reflexivity|].
-  destruct (N.ltb_spec b a) as [Hlt|Hge].
-  - destruct (N.ltb_spec a 128) as [Hx|Hx]; [|lia]. intros Hr.
-    destruct ((65 <=? a) && (a <=? 90)) eqn:E1, ((65 <=? b) && (b <=? 90)) eqn:E2; lia.
-  - destruct (N.ltb_spec b 128) as [Hx|Hx]; [|lia]. intros Hr.
-    destruct ((65 <=? a) && (a <=? 90)) eqn:E1, ((65 <=? b) && (b <=? 90)) eqn:E2; lia.
-Qed.
-
-Lemma equalFold_ascii s : forall t, asciib s = true -> asciib t = true -> equalFold s t = true -> lower s = lower t.
-Proof.
-  induction s as [|a s IH]; intros [|b t] Hs Ht H; cbn [equalFold] in H; try discriminate; [reflexivity|].
-  cbn [asciib forallb] in Hs, Ht. apply andb_true_iff in Hs as [Ha Hs], Ht as [Hb Ht].
-  unfold RuneSelf in H.
-  replace (128 <=? a) with false in H by lia. replace (128 <=? b) with false in H by lia. cbn [orb] in H.
-  destruct (rune_fold_eq a b) eqn:E; [|discriminate].
-  cbn [lower map]. f_equal; [apply rune_fold_eq_ascii; [lia|lia|assumption]|].
-  now apply IH.
+  unfold slice_to, slice_from. now apply wf_firstn, wf_skipn.
 Qed.
 
 (* ---- list surgery ---------------------------------------------------------------------------------------------- *)
@@ -82,44 +83,40 @@ Qed.
 Lemma trusted_init_fold init init' h : lcs init = lcs init' -> trusted init h -> trusted init' h.
 Proof. unfold trusted. now intros ->. Qed.
 
-(* ---- the trust rule is sound on ASCII host names ------------------------------------------------------------------- *)
-Lemma isDomainOrSubdomain_sound_ascii sub parent :
-  asciib sub = true -> asciib parent = true ->
+(* ---- the trust rule is sound: it only accepts the parent and its subdomains, for all byte strings ------------------ *)
+Lemma isDomainOrSubdomain_sound_all sub parent :
+  wf_bytes sub -> wf_bytes parent ->
   isDomainOrSubdomainBytes sub parent = true -> trusted parent sub.
 Proof.
   intros Hs Hp. unfold isDomainOrSubdomainBytes.
-  destruct (equalFold sub parent) eqn:E.
-  - intros _. left. rewrite <- !lower_lcs. now apply equalFold_ascii.
+  destruct (asciiEqualFold sub parent) eqn:E.
+  - intros _. left. rewrite <- !lower_lcs. now apply asciiEqualFold_iff.
   - destruct parent as [|p0 pr]; [discriminate|]. set (parent := p0 :: pr) in *.
     destruct ((length sub <=? length parent)%nat) eqn:El; [discriminate|]. cbn [orb].
     destruct (has_byte COLON sub || has_byte PCT sub); [discriminate|].
     set (k := (length sub - length parent)%nat).
-    destruct (equalFold (skipn k sub) parent) eqn:E2; [|discriminate]. cbn [negb].
+    destruct (asciiEqualFold (skipn k sub) parent) eqn:E2; [|discriminate]. cbn [negb].
     intros Hdot. apply N.eqb_eq in Hdot.
     apply Nat.leb_gt in El.
     assert (Hk : (S (k - 1) = k)%nat) by (unfold k; lia).
     right. exists (lcs (firstn (k - 1) sub)).
     rewrite (split_at_nth 0 sub (k - 1)) at 1 by (unfold k; lia).
     rewrite Hk, Hdot. unfold lcs at 1. rewrite map_app. cbn [map]. f_equal. f_equal.
-    rewrite <- !lower_lcs. apply equalFold_ascii; [now apply asciib_skipn|assumption|assumption].
-Qed.
-
-(* the Unicode folding of bytes.EqualFold makes the rule unsound on arbitrary bytes: U+017F LONG S folds to s *)
-Lemma isDomainOrSubdomain_sound_refuted :
-  exists sub parent, isDomainOrSubdomainBytes sub parent = true /\ ~ trusted parent sub.
-Proof.
-  exists (h "61c5bf6b2e636f6d"), (s2b "ask.com"). split; [vm_compute; reflexivity|].
-  intros H. apply trustedb_iff in H. vm_compute in H. discriminate.
+    rewrite <- !lower_lcs. apply asciiEqualFold_iff; [now apply wf_skipn|assumption|assumption].
 Qed.
 
 (* ---- header surgery ------------------------------------------------------------------------------------------------- *)
 Definition sensb (kv : hdr) : bool := is_sens_name (fst kv).
 Definition strip_keys (dn : bool) : list bytes := map (normKey dn) sensitive_names.
 
-(* every stored header whose name is (case-insensitively) one of the six is stored under the spelling Del looks for.
-   True whenever normalizing is enabled (keys are canonicalised when stored); with DisableNormalizing it is a condition on the caller. *)
-Definition canon_keys (dn : bool) (hs : list hdr) : Prop :=
-  forall kv, In kv hs -> sensb kv = true -> existsb (beq (fst kv)) (strip_keys dn) = true.
+(* the only condition on the stored header keys: they are byte strings (every element < 256) *)
+Definition canon_keys (dn : bool) (hs : list hdr) : Prop := forall kv, In kv hs -> wf_bytes (fst kv).
+
+Lemma wf_of_b s : wf_bytesb s = true -> wf_bytes s.
+Proof.
+  unfold wf_bytesb, wf_bytes, is_byte. intros Hb. apply Forall_forall. intros x Hx.
+  rewrite forallb_forall in Hb. specialize (Hb x Hx). lia.
+Qed.
 
 Definition quiet (r : req) : Prop := filter sensb (r_h r) = [].
 
@@ -171,8 +168,10 @@ Proof. induction ks as [|k ks IH]; intros r; cbn [fold_left]; [reflexivity|]. no
 Lemma TE_not_sens : is_sens_name HeaderTransferEncoding = false.
 Proof. vm_compute. reflexivity. Qed.
 
-Lemma auth_in_strip_keys dn : existsb (beq (normKey dn HeaderAuthorization)) (strip_keys dn) = true.
-Proof. destruct dn; vm_compute; reflexivity. Qed.
+Lemma wf_TE : wf_bytes HeaderTransferEncoding.
+Proof. apply wf_of_b. vm_compute. reflexivity. Qed.
+Lemma wf_auth dn : wf_bytes (normKey dn HeaderAuthorization).
+Proof. apply wf_of_b. destruct dn; vm_compute; reflexivity. Qed.
 
 (* ---- Request.Write ------------------------------------------------------------------------------------------------------- *)
 Lemma write_props uinfo r r1 s : write uinfo r = (r1, s) ->
@@ -200,10 +199,10 @@ Qed.
 Lemma write_canon uinfo r r1 s : write uinfo r = (r1, s) -> canon_keys (r_dn r) (r_h r) -> canon_keys (r_dn r1) (r_h r1).
 Proof.
   intros W Hc. destruct (write_props _ _ _ _ W) as (Hdn & _ & _ & _ & Hin).
-  intros kv Hkv Hs. rewrite Hdn. destruct (Hin _ Hkv) as [Hl|[Hte|(v & _ & ->)]].
+  intros kv Hkv. destruct (Hin _ Hkv) as [Hl|[Hte|(v & _ & ->)]].
   - now apply Hc.
-  - unfold sensb in Hs. rewrite Hte, TE_not_sens in Hs. discriminate.
-  - cbn [fst]. apply auth_in_strip_keys.
+  - rewrite Hte. apply wf_TE.
+  - cbn [fst]. apply wf_auth.
 Qed.
 
 Lemma write_quiet r r1 s : write None r = (r1, s) -> quiet r -> s_sens s = [].
@@ -221,17 +220,30 @@ Lemma strip_incl r init hp : r_dn (stripSensitiveHeadersOnRedirect r init hp) = 
   forall kv, In kv (r_h (stripSensitiveHeadersOnRedirect r init hp)) -> In kv (r_h r).
 Proof.
   unfold stripSensitiveHeadersOnRedirect. destruct (negb (shouldStrip init hp)); [now repeat split|].
-  split; [apply fold_hdel_dn|]. split.
-  - unfold sensitive_names. reflexivity.
-  - intros kv Hin. now apply fold_hdel_In in Hin.
+  cbv zeta. cbn [r_dn r_method r_h]. split; [apply fold_hdel_dn|]. split; [reflexivity|].
+  intros kv Hin. apply filter_In in Hin as [Hin _]. now apply fold_hdel_In in Hin.
+Qed.
+
+Lemma wf_sensitive_names : Forall wf_bytes sensitive_names.
+Proof.
+  assert (Hb : forallb wf_bytesb sensitive_names = true) by (vm_compute; reflexivity).
+  apply Forall_forall. intros n Hn. rewrite forallb_forall in Hb. apply wf_of_b, Hb, Hn.
+Qed.
+
+Lemma sens_isSensitive k : wf_bytes k -> is_sens_name k = true -> isSensitiveRedirectHeader k = true.
+Proof.
+  intros Hw Hs. unfold is_sens_name in Hs. apply existsb_exists in Hs as (n & Hn & Hb). apply beq_eq in Hb.
+  apply existsb_exists. exists n. split; [exact Hn|]. apply asciiEqualFold_iff; [exact Hw| |exact Hb].
+  pose proof wf_sensitive_names as Hwn. rewrite Forall_forall in Hwn. now apply Hwn.
 Qed.
 
 Lemma strip_quiet r init hp : shouldStrip init hp = true -> canon_keys (r_dn r) (r_h r) ->
   quiet (stripSensitiveHeadersOnRedirect r init hp).
 Proof.
-  intros Hs Hc. unfold stripSensitiveHeadersOnRedirect. rewrite Hs. cbn [negb].
-  apply filter_nil_intro. intros kv Hin Hsens. apply fold_hdel_In in Hin as [H1 H2].
-  specialize (Hc _ H1 Hsens). unfold strip_keys in Hc. congruence.
+  intros Hs Hc. unfold stripSensitiveHeadersOnRedirect. rewrite Hs. cbn [negb]. cbv zeta.
+  apply filter_nil_intro. cbn [r_h]. intros kv Hin Hsens. apply filter_In in Hin as [Hin Hf].
+  apply fold_hdel_In in Hin as [H1 _]. specialize (Hc _ H1).
+  rewrite (sens_isSensitive _ Hc Hsens) in Hf. discriminate.
 Qed.
 
 Lemma rewrite_incl st r : r_dn (rewrite_req st r) = r_dn r /\ forall kv, In kv (r_h (rewrite_req st r)) -> In kv (r_h r).
@@ -272,9 +284,9 @@ Lemma follow_eq maxr init cnt r uinfo ok rhost via prev chain :
 Proof. destruct chain; reflexivity. Qed.
 
 (* ---- (1) no credential header reaches an untrusted host ------------------------------------------------------------------------------ *)
-Lemma follow_no_leak init : asciib init = true ->
+Lemma follow_no_leak init : wf_bytes init ->
   forall chain maxr cnt r uinfo ok rhost via prev hops res,
-  Forall (fun a => asciib (a_rhost a) = true) chain ->
+  Forall (fun a => wf_bytes (a_rhost a)) chain ->
   canon_keys (r_dn r) (r_h r) ->
   (trusted init (hostnameFromHostPortBytes rhost) \/ (uinfo = None /\ quiet r)) ->
   follow maxr init cnt r uinfo ok rhost via prev chain = (hops, res) ->
@@ -305,7 +317,7 @@ Proof.
     destruct (shouldStrip init (a_rhost a)) eqn:Hs.
     + right. split; [reflexivity|]. eapply quiet_incl; [apply (strip_quiet r1 init (a_rhost a) Hs Hcan1)|exact Hin3].
     + left. unfold shouldStrip in Hs. apply negb_false_iff in Hs.
-      apply isDomainOrSubdomain_sound_ascii in Hs; [exact Hs|now apply asciib_hostname|exact Hinit].
+      apply isDomainOrSubdomain_sound_all in Hs; [exact Hs|now apply wf_hostname|exact Hinit].
 Qed.
 
 (* the model's "sensitive" names are the six credential names of the property text *)
@@ -329,8 +341,8 @@ Definition init_agree (url0 host0 : bytes) : Prop :=
 Theorem no_credentials_off_domain maxr url0 host0 ok0 uinfo0 r0 chain hops res :
   run maxr url0 host0 ok0 uinfo0 r0 chain = (hops, res) ->
   init_agree url0 host0 ->
-  asciib (hostnameFromURLString url0) = true ->
-  Forall (fun a => asciib (a_rhost a) = true) chain ->
+  wf_bytes (hostnameFromURLString url0) ->
+  Forall (fun a => wf_bytes (a_rhost a)) chain ->
   canon_keys (r_dn r0) (r_h r0) ->
   forall hp, In hp hops -> ~ trusted (hostnameFromHostPortBytes host0) (h_host hp) -> s_sens (h_sent hp) = [].
 Proof.
@@ -534,90 +546,17 @@ Lemma run_ghost maxr url0 host0 ok0 uinfo0 r0 chain hops res :
     exists a, nth_error chain i = Some a /\ h_via nxt = a_status a /\ h_prev nxt = s_method (h_sent hp).
 Proof. unfold run. apply follow_ghost. Qed.
 
-(* ---- canon_keys holds whenever the keys were stored with normalizing enabled ------------------------------------------------------------- *)
-Definition byte_range : list N := map N.of_nat (seq 0 256).
-Lemma in_byte_range c : c < 256 -> In c byte_range.
-Proof.
-  intros Hc. unfold byte_range. apply in_map_iff. exists (N.to_nat c). split; [apply N2Nat.id|].
-  apply in_seq. lia.
-Qed.
-
-Definition vbyte (c : N) : bool := (c <? 128) && (tbl validHeaderFieldByteTable c =? 1).
-Definition tbl_fact (c : N) : bool :=
-  (tbl toUpperTable c =? tbl toUpperTable (lower_ascii c)) && (tbl toLowerTable c =? tbl toLowerTable (lower_ascii c)) &&
-  Bool.eqb (vbyte c) (vbyte (lower_ascii c)).
-Lemma tbl_facts c : c < 256 -> tbl_fact c = true.
-Proof.
-  intros Hc. assert (Hall : forallb tbl_fact byte_range = true) by (vm_compute; reflexivity).
-  rewrite forallb_forall in Hall. apply Hall, in_byte_range, Hc.
-Qed.
-
-Lemma normKey_go_lower k : wf_bytes k -> forall u, normKey_go u k = normKey_go u (lower k).
-Proof.
-  induction 1 as [|c k Hc Hk IH]; intros u; cbn [normKey_go lower map]; [reflexivity|].
-  pose proof (tbl_facts c Hc) as Hf. unfold tbl_fact in Hf.
-  apply andb_true_iff in Hf as [Hf _]. apply andb_true_iff in Hf as [Hu Hl]. apply N.eqb_eq in Hu, Hl.
-  destruct u; [rewrite <- Hu|rewrite <- Hl]; f_equal; apply IH.
-Qed.
-
-Lemma valid_key_lower k : wf_bytes k -> valid_key k = valid_key (lower k).
-Proof.
-  induction 1 as [|c k Hc Hk IH]; cbn [valid_key forallb lower map]; [reflexivity|].
-  pose proof (tbl_facts c Hc) as Hf. unfold tbl_fact in Hf. apply andb_true_iff in Hf as [_ Hv]. apply eqb_prop in Hv.
-  unfold vbyte in Hv. rewrite Hv. f_equal. exact IH.
-Qed.
-
-Lemma wf_sensitive_names : Forall wf_bytes sensitive_names.
-Proof. assert (Hb : forallb wf_bytesb sensitive_names = true) by (vm_compute; reflexivity).
-  apply Forall_forall. intros n Hn. rewrite forallb_forall in Hb. specialize (Hb n Hn).
-  unfold wf_bytesb in Hb. rewrite forallb_forall in Hb. apply Forall_forall. intros x Hx. specialize (Hb x Hx). unfold is_byte in Hb. lia.
-Qed.
-
-Lemma canon_keys_normalized hs :
-  (forall kv, In kv hs -> wf_bytes (fst kv) /\ normKey false (fst kv) = fst kv) -> canon_keys false hs.
-Proof.
-  intros Hn kv Hin Hs. destruct (Hn _ Hin) as [Hwf Hfix]. unfold sensb, is_sens_name in Hs.
-  apply existsb_exists in Hs as (n & Hnin & Hbe). apply beq_eq in Hbe.
-  apply existsb_exists. exists (normKey false n). split; [unfold strip_keys; now apply in_map|].
-  apply beq_eq. rewrite <- Hfix at 1. unfold normKey.
-  assert (Hwn : wf_bytes n) by (pose proof wf_sensitive_names as Hw; rewrite Forall_forall in Hw; now apply Hw).
-  rewrite (valid_key_lower _ Hwf), (valid_key_lower _ Hwn), Hbe.
-  destruct (valid_key (lower n)) eqn:Ev.
-  - now rewrite (normKey_go_lower _ Hwf), (normKey_go_lower _ Hwn), Hbe.
-  - (* the six names are valid keys *)
-    exfalso. revert Ev. clear -Hnin. unfold sensitive_names in Hnin. cbn [In] in Hnin.
-    repeat (destruct Hnin as [<-|Hnin]; [vm_compute; discriminate|]). destruct Hnin.
-Qed.
-
-(* ---- the two ways the unguarded statement fails (witnesses of the findings) ---------------------------------------------------------------- *)
-Definition leak (maxr : Z) (url0 host0 : bytes) (uinfo0 : option bytes) (r0 : req) (chain : list answer) : Prop :=
-  exists hops res hp, run maxr url0 host0 true uinfo0 r0 chain = (hops, res) /\ In hp hops /\
-    ~ trusted (hostnameFromHostPortBytes host0) (h_host hp) /\ s_sens (h_sent hp) <> [].
-
-(* bytes.EqualFold folds U+017F to s: ask.com -> "a\xc5\xbfk.com" keeps Authorization (everything else in the guard holds) *)
-Lemma leak_unicode_fold :
-  let r0 := mkReq MethodGet [(HeaderAuthorization, s2b "secret")] false false 0%Z false 0%Z None in
-  let chain := [mkAns 302 (h "687474703a2f2f61c5bf6b2e636f6d2f78") (h "61c5bf6b2e636f6d") true] in
-  init_agree (s2b "http://ask.com/") (s2b "ask.com") /\ asciib (hostnameFromURLString (s2b "http://ask.com/")) = true /\
-  canon_keys (r_dn r0) (r_h r0) /\ leak 5 (s2b "http://ask.com/") (s2b "ask.com") None r0 chain.
-Proof.
-  cbv zeta. split; [vm_compute; reflexivity|]. split; [vm_compute; reflexivity|]. split.
-  - intros kv [<-|[]] _. vm_compute. reflexivity.
-  - unfold leak. eexists _, _, _. split; [vm_compute; reflexivity|]. split; [right; left; reflexivity|]. split.
-    + intros Ht. apply trustedb_iff in Ht. vm_compute in Ht. discriminate.
-    + vm_compute. discriminate.
-Qed.
-
-(* DisableNormalizing: "authorization" is not the key Del("Authorization") removes (all hosts ASCII) *)
-Lemma leak_disable_normalizing :
-  let r0 := mkReq MethodGet [(s2b "authorization", s2b "secret")] true false 0%Z false 0%Z None in
-  let chain := [mkAns 302 (s2b "http://evil.com/x") (s2b "evil.com") true] in
-  init_agree (s2b "http://a.com/") (s2b "a.com") /\ asciib (hostnameFromURLString (s2b "http://a.com/")) = true /\
-  Forall (fun a => asciib (a_rhost a) = true) chain /\ leak 5 (s2b "http://a.com/") (s2b "a.com") None r0 chain.
-Proof.
-  cbv zeta. split; [vm_compute; reflexivity|]. split; [vm_compute; reflexivity|]. split.
-  - repeat constructor.
-  - unfold leak. eexists _, _, _. split; [vm_compute; reflexivity|]. split; [right; left; reflexivity|]. split.
-    + intros Ht. apply trustedb_iff in Ht. vm_compute in Ht. discriminate.
-    + vm_compute. discriminate.
-Qed.
+(* the three repaired findings stay repaired in the model: the look-alike host is not trusted, the sweep removes every
+   spelling, with normalizing disabled or enabled again *)
+Lemma repaired_examples :
+  isDomainOrSubdomainBytes (h "61c5bf6b2e636f6d") (s2b "ask.com") = false /\
+  isDomainOrSubdomainBytes (h "61732e4b2e636f6d") (s2b "as.k.com") = true /\
+  (let r0 := mkReq MethodGet [(s2b "authorization", s2b "secret"); (s2b "COOKIE2", s2b "x")] true false 0%Z false 0%Z None in
+   map (fun hp => length (s_sens (h_sent hp)))
+       (fst (run 5 (s2b "http://a.com/") (s2b "a.com") true None r0 [mkAns 302 (s2b "http://evil.com/x") (s2b "evil.com") true]))
+   = [2%nat; 0%nat]) /\
+  (let r0 := mkReq MethodGet [(s2b "authorization", s2b "secret")] false false 0%Z false 0%Z None in
+   map (fun hp => length (s_sens (h_sent hp)))
+       (fst (run 5 (s2b "http://a.com/") (s2b "a.com") true None r0 [mkAns 302 (s2b "http://evil.com/x") (s2b "evil.com") true]))
+   = [1%nat; 0%nat]).
+Proof. vm_compute. repeat split; reflexivity. Qed.
